@@ -17,7 +17,9 @@ of the operation.
 
     finish():  struct_cb(value):   insideRW += 1; for m, p in paramdict: setattr(modobj, p.name, value[m]); insideRW -= 1
                cb_m(value):        if not insideRW: prev = dict(struct); prev[m] = value; setattr(modobj, struct, prev)
-    combined layout (read_<struct>/write_<struct> written by the programmer):
+    combined layout (hasStructRW: read_<struct> or write_<struct> written by the programmer; the one that is missing is the
+    plain wrapper: a read returns the cached value, a write stores the validated value), for every member without a
+    programmer-written method of that name:
        read_<member>  = lambda: read_<struct>()[member]
        write_<member> = lambda v: d = dict(struct); d[member] = v; write_<struct>(d); return read_<member>()
     per-member layout:
@@ -69,13 +71,20 @@ inductive Ev
 
 structure Cfg where
   members : List String              -- paramdict order
-  combined : Bool                    -- hasStructRW
-  hasR : String → Bool               -- per-member layout: the programmer wrote read_<m>
-  hasW : String → Bool               -- per-member layout: the programmer wrote write_<m>
+  hasRS : Bool                       -- the programmer wrote read_<struct>
+  hasWS : Bool                       -- the programmer wrote write_<struct>
+  hasR : String → Bool               -- the programmer wrote read_<m> (either layout)
+  hasW : String → Bool               -- the programmer wrote write_<m> (either layout)
+  omitUnch : Bool := false           -- `omit_unchanged_within`: 0 (false) or longer than the whole history (true)
+
+/-- `hasStructRW = hasattr(owner, 'read_<struct>') or hasattr(owner, 'write_<struct>')` -/
+def Cfg.combined (cfg : Cfg) : Bool := cfg.hasRS || cfg.hasWS
 
 structure St where
   struct : Dict
   mem : Dict
+  sP : Bool := false                 -- the next update of the struct cannot be omitted: `readerror` is set or it was never announced
+  mP : List String := []             -- the members for which the same holds
   evs : List Ev := []
   ok : Bool := true
   exc : Option ExcKind := none       -- the driver exception that escaped from the operation (`none`: none, or a framework error)
@@ -90,39 +99,54 @@ def fine (s : St) : St := { s with ok := true }
 /-- the operation ends with the exception `e` of a driver body -/
 def failedExc (e : Option ExcKind) (s : St) : St := { s with ok := false, exc := e }
 
+/-- `announceUpdate` returns before storing, callbacks and update message (modulebase.py:563-575): the value is the one
+in the cache, the window is open and nothing is pending -/
+def omittedS (cfg : Cfg) (same pend : Bool) : Bool := cfg.omitUnch && same && !pend
+
+def pendM (s : St) (m : String) : Bool := s.mP.contains m
+def clearM (s : St) (m : String) : List String := s.mP.filter (· != m)
+
+/-- an error is announced for the struct parameter / a member parameter (`announceUpdate(…, err=e)`): `readerror` is set; the
+callbacks do not get along with the extra argument (an exception inside them is swallowed) -/
+def structError (s : St) : St := { s with sP := true }
+def memberError (m : String) (s : St) : St := { s with mP := if s.mP.contains m then s.mP else s.mP ++ [m] }
+
 /-- `announceUpdate(member, x)` while `insideRW > 0` (the member callback does nothing) -/
-def announceMemberIn (m : String) (x : Val) (s : St) : St :=
-  emit { s with mem := s.mem.set m x } (.mem m x)
+def announceMemberIn (cfg : Cfg) (m : String) (x : Val) (s : St) : St :=
+  if omittedS cfg (s.mem.lookup m == some x) (pendM s m) then s
+  else emit { s with mem := s.mem.set m x, mP := clearM s m } (.mem m x)
 
 /-- the loop of `struct_cb`; a missing key ends it (the `KeyError` is swallowed by `announceUpdate`) -/
-def setMembers : List String → Dict → St → St
+def setMembers (cfg : Cfg) : List String → Dict → St → St
   | [], _, s => s
   | m :: ms, d, s =>
     match d.lookup m with
     | none => s
-    | some x => setMembers ms d (announceMemberIn m x s)
+    | some x => setMembers cfg ms d (announceMemberIn cfg m x s)
 
-/-- `announceUpdate(struct, d)` with an already validated `d`: store, callbacks, update message -/
+/-- `announceUpdate(struct, d)` with an already validated `d`: unless omitted — store, callbacks, update message -/
 def announceStruct (cfg : Cfg) (d : Dict) (s : St) : St :=
-  emit (setMembers cfg.members d { s with struct := d }) (.struct d)
+  if omittedS cfg (s.struct == d) s.sP then s
+  else emit (setMembers cfg cfg.members d { s with struct := d, sP := false }) (.struct d)
 
 /-- `setattr(modobj, struct, d)`: `announceUpdate` validates; an invalid value only sets `readerror` -/
 def assignStruct (cfg : Cfg) (d : Dict) (s : St) : St :=
-  if wf cfg d then announceStruct cfg d s else s
+  if wf cfg d then announceStruct cfg d s else structError s
 
-/-- `announceUpdate(member, x)` with `insideRW = 0`: the member callback writes the struct first -/
+/-- `announceUpdate(member, x)` with `insideRW = 0`: unless omitted, the member callback writes the struct first -/
 def announceMember (cfg : Cfg) (m : String) (x : Val) (s : St) : St :=
-  emit (assignStruct cfg (s.struct.set m x) { s with mem := s.mem.set m x }) (.mem m x)
+  if omittedS cfg (s.mem.lookup m == some x) (pendM s m) then s
+  else emit (assignStruct cfg (s.struct.set m x) { s with mem := s.mem.set m x, mP := clearM s m }) (.mem m x)
 
 /-! ### combined layout -/
 
 /-- wrapped `read_<struct>` around the programmer's body returning `r` -/
 def readStructA (cfg : Cfg) (r : RRes Dict) (s : St) : St :=
   match r with
-  | .fail k => failedExc (some k) s
-  | .ok d => if wf cfg d then fine (announceStruct cfg d s) else failed s
+  | .fail k => failedExc (some k) (structError s)
+  | .ok d => if wf cfg d then fine (announceStruct cfg d s) else failed (structError s)
 
-/-- wrapped `write_<struct>(v)` -/
+/-- wrapped `write_<struct>(v)` (a write wrapper announces no errors) -/
 def writeStructA (cfg : Cfg) (v : Dict) (w : WRes Dict) (s : St) : St :=
   if !wf cfg v then failed s else
   match w with
@@ -130,32 +154,47 @@ def writeStructA (cfg : Cfg) (v : Dict) (w : WRes Dict) (s : St) : St :=
   | .retNone => fine (announceStruct cfg v s)
   | .ret d => if wf cfg d then fine (announceStruct cfg d s) else failed s
 
-/-- wrapped generated `read_<member>` -/
+/-- `read_<struct>` in the combined layout: the programmer's body, or (only `write_<struct>` written) the plain wrapper
+returning the cached value -/
+def readStructC (cfg : Cfg) (r : RRes Dict) (s : St) : St :=
+  if cfg.hasRS then readStructA cfg r s else fine s
+
+/-- `write_<struct>(v)` in the combined layout: the programmer's body, or (only `read_<struct>` written) the plain wrapper
+storing the validated value -/
+def writeStructC (cfg : Cfg) (v : Dict) (w : WRes Dict) (s : St) : St :=
+  if cfg.hasWS then writeStructA cfg v w s else writeStructA cfg v .retNone s
+
+/-- wrapped generated `read_<member>`: a failure of `read_<struct>` passes through both wrappers, each announces it -/
 def readMemberA (cfg : Cfg) (m : String) (r : RRes Dict) (s : St) : St :=
-  let s1 := readStructA cfg r s
-  if !s1.ok then s1 else
+  let s1 := readStructC cfg r s
+  if !s1.ok then memberError m s1 else
   match s1.struct.lookup m with
-  | none => failed s1
+  | none => failed (memberError m s1)
   | some x => fine (announceMember cfg m x s1)
 
+/-- wrapped programmer-written `read_<m>` (either layout; without one: the plain wrapper returning the cached value) -/
+def readMemberB (cfg : Cfg) (m : String) (r : RRes Val) (s : St) : St :=
+  if cfg.hasR m then
+    match r with
+    | .fail k => failedExc (some k) (memberError m s)
+    | .ok x => fine (announceMember cfg m x s)
+  else fine s
+
+/-- `read_<member>` in the combined layout: the programmer's when there is one, else the generated one -/
+def readMemberC (cfg : Cfg) (m : String) (r : RRes Dict) (rB : RRes Val) (s : St) : St :=
+  if cfg.hasR m then readMemberB cfg m rB s else readMemberA cfg m r s
+
 /-- wrapped generated `write_<member>(v)` -/
-def writeMemberA (cfg : Cfg) (m : String) (v : Val) (w : WRes Dict) (r : RRes Dict) (s : St) : St :=
-  let s1 := writeStructA cfg (s.struct.set m v) w s
+def writeMemberA (cfg : Cfg) (m : String) (v : Val) (w : WRes Dict) (r : RRes Dict) (rB : RRes Val) (s : St) : St :=
+  let s1 := writeStructC cfg (s.struct.set m v) w s
   if !s1.ok then s1 else
-  let s2 := readMemberA cfg m r s1
+  let s2 := readMemberC cfg m r rB s1
   if !s2.ok then s2 else
   match s2.mem.lookup m with
   | none => failed s2
   | some x => fine (announceMember cfg m x s2)
 
 /-! ### per-member layout -/
-
-def readMemberB (cfg : Cfg) (m : String) (r : RRes Val) (s : St) : St :=
-  if cfg.hasR m then
-    match r with
-    | .fail k => failedExc (some k) s
-    | .ok x => fine (announceMember cfg m x s)
-  else fine s
 
 def writeMemberB (cfg : Cfg) (m : String) (v : Val) (w : WRes Val) (s : St) : St :=
   if cfg.hasW m then
@@ -177,8 +216,8 @@ def readIter (cfg : Cfg) (r : String → RRes Val) (l : Loop) (m : String) : Loo
   if l.stop then l else
   if cfg.hasR m then
     match r m with
-    | .fail k => { l with stop := true, exc := some k }
-    | .ok x => { l with st := announceMemberIn m x l.st, result := l.result ++ [(m, x)] }
+    | .fail k => { l with st := memberError m l.st, stop := true, exc := some k }
+    | .ok x => { l with st := announceMemberIn cfg m x l.st, result := l.result ++ [(m, x)] }
   else
     match l.st.mem.lookup m with
     | none => { l with stop := true }
@@ -193,23 +232,26 @@ def writeIter (cfg : Cfg) (v : Dict) (w : String → WRes Val) (l : Loop) (m : S
     if cfg.hasW m then
       match w m with
       | .fail k => { l with stop := true, exc := some k }
-      | .retNone => { l with st := announceMemberIn m req l.st, result := l.result ++ [(m, req)] }
-      | .ret x => { l with st := announceMemberIn m x l.st, result := l.result ++ [(m, x)] }
-    else { l with st := announceMemberIn m req l.st, result := l.result ++ [(m, req)] }
+      | .retNone => { l with st := announceMemberIn cfg m req l.st, result := l.result ++ [(m, req)] }
+      | .ret x => { l with st := announceMemberIn cfg m x l.st, result := l.result ++ [(m, x)] }
+    else { l with st := announceMemberIn cfg m req l.st, result := l.result ++ [(m, req)] }
+
+/-- the wrapper of the generated struct method ends with an exception: a read wrapper announces it, a write wrapper does not -/
+def loopError (isRead : Bool) (s : St) : St := if isRead then structError s else s
 
 /-- what follows the loop: `finally` (re-synchronise after a failure), then the wrapper -/
-def finishLoop (cfg : Cfg) (l : Loop) : St :=
+def finishLoop (cfg : Cfg) (isRead : Bool) (l : Loop) : St :=
   if l.result.length < cfg.members.length then
-    failedExc l.exc (assignStruct cfg (Dict.merge l.st.struct l.result) l.st)
+    failedExc l.exc (loopError isRead (assignStruct cfg (Dict.merge l.st.struct l.result) l.st))
   else if wf cfg l.result then fine (announceStruct cfg l.result l.st)
-  else failed l.st
+  else failed (loopError isRead l.st)
 
 def readStructB (cfg : Cfg) (r : String → RRes Val) (s : St) : St :=
-  finishLoop cfg (cfg.members.foldl (readIter cfg r) { st := s })
+  finishLoop cfg true (cfg.members.foldl (readIter cfg r) { st := s })
 
 def writeStructB (cfg : Cfg) (v : Dict) (w : String → WRes Val) (s : St) : St :=
   if !wf cfg v then failed s else
-  finishLoop cfg (cfg.members.foldl (writeIter cfg v w) { st := s })
+  finishLoop cfg false (cfg.members.foldl (writeIter cfg v w) { st := s })
 
 /-! ### operations -/
 
@@ -217,20 +259,20 @@ inductive Op
   | readStruct (rA : RRes Dict) (rB : String → RRes Val)               -- oracle of read_<m>, by member
   | writeStruct (v : Dict) (wA : WRes Dict) (wB : String → WRes Val)   -- oracle of write_<m>, by member
   | readMember (m : String) (rA : RRes Dict) (rB : RRes Val)
-  | writeMember (m : String) (v : Val) (wA : WRes Dict) (rA : RRes Dict) (wB : WRes Val)
+  | writeMember (m : String) (v : Val) (wA : WRes Dict) (rA : RRes Dict) (wB : WRes Val) (rB : RRes Val)
   | driverAssignStruct (v : Dict)
   | driverAssignMember (m : String) (v : Val)
 
 def step (cfg : Cfg) (s : St) : Op → St
-  | .readStruct rA rB => if cfg.combined then readStructA cfg rA s else readStructB cfg rB s
-  | .writeStruct v wA wB => if cfg.combined then writeStructA cfg v wA s else writeStructB cfg v wB s
+  | .readStruct rA rB => if cfg.combined then readStructC cfg rA s else readStructB cfg rB s
+  | .writeStruct v wA wB => if cfg.combined then writeStructC cfg v wA s else writeStructB cfg v wB s
   | .readMember m rA rB =>
     if !cfg.members.contains m then failed s
-    else if cfg.combined then readMemberA cfg m rA s else readMemberB cfg m rB s
-  | .writeMember m v wA rA wB =>
+    else if cfg.combined && !cfg.hasR m then readMemberA cfg m rA s else readMemberB cfg m rB s
+  | .writeMember m v wA rA wB rB =>
     if !cfg.members.contains m then failed s
-    else if cfg.combined then writeMemberA cfg m v wA rA s else writeMemberB cfg m v wB s
-  | .driverAssignStruct v => if wf cfg v then fine (assignStruct cfg v s) else failed s   -- not stored: `readerror`
+    else if cfg.combined && !cfg.hasW m then writeMemberA cfg m v wA rA rB s else writeMemberB cfg m v wB s
+  | .driverAssignStruct v => if wf cfg v then fine (assignStruct cfg v s) else failed (structError s)   -- not stored: `readerror`
   | .driverAssignMember m v => if !cfg.members.contains m then failed s else fine (announceMember cfg m v s)
 
 def step1 (cfg : Cfg) (s : St) (op : Op) : St := step cfg { s with evs := [], exc := none } op
@@ -249,7 +291,8 @@ def init (cfg : Cfg) : St :=
     write_<name>(value):  write_<idx>(min(vdict, key=lambda i: abs(vdict[i] - value))); return getattr(mobj, name)
     __get__:              valuedict[parameters[idx_name].value]
     callback on <idx>:    announceUpdate(name, getattr(modobj, name))
-    callback on <name>:   (repaired code) if value != valuedict[<idx>]: setattr(modobj, <idx>, min(vdict, key=…))
+    callback on <name>:   (repaired code) if value != valuedict[<idx>]: closest = min(vdict, key=…)
+                          if closest == <idx>: announceUpdate(name, valuedict[closest]) else: setattr(modobj, <idx>, closest)
 -/
 
 structure FCfg where
@@ -258,6 +301,8 @@ structure FCfg where
   hi : Val
   hasR : Bool                    -- the programmer wrote read_<idx>
   hasW : Bool                    -- the programmer wrote write_<idx>
+  omitUnch : Bool := false       -- `omit_unchanged_within`: 0 (false) or longer than the whole history (true); frappy's
+                                 -- default of 0.1 s lies in between: which of the two applies to an update depends on timing
   deriving Repr
 
 inductive FEv
@@ -268,6 +313,8 @@ inductive FEv
 structure FSt where
   idx : Int
   value : Val                    -- the cache entry of the float parameter (what `read` replies)
+  idxErr : Bool := false         -- the next update of the index cannot be omitted: `readerror` is set or it was never announced
+  valErr : Bool := false         -- the same for the float parameter
   evs : List FEv := []
   ok : Bool := true
   exc : Option ExcKind := none
@@ -286,11 +333,21 @@ def closest : List (Int × Val) → Val → Option Int
 
 def femit (s : FSt) (e : FEv) : FSt := { s with evs := s.evs ++ [e] }
 
+/-- `announceUpdate` returns before storing, callbacks and update message: "no change within short time -> omit"
+(modulebase.py:563-575: the value is the one in the cache, no error is pending, the window is still open) -/
+def omitted (cfg : FCfg) (same err : Bool) : Bool := cfg.omitUnch && same && !err
+
+/-- `announceUpdate(name, v)` with `v = valuedict[index]` (from `trigger_setter`, from the write wrapper of the float
+parameter, from `trigger_index`): store, the callback `trigger_index` finds nothing to do, update -/
+def announceVal (cfg : FCfg) (v : Val) (s : FSt) : FSt :=
+  if omitted cfg (s.value == v) s.valErr then s else femit { s with value := v, valErr := false } (.value v)
+
 /-- `announceUpdate(idx, j)` for a valid index: store, callback `trigger_setter`, update -/
 def announceIdx (cfg : FCfg) (j : Int) (s : FSt) : FSt :=
+  if omitted cfg (s.idx == j) s.idxErr then s else
   match cfg.vdict.lookup j with
-  | none => femit { s with idx := j } (.idx j)       -- `valuedict[j]` raises inside the callback (swallowed)
-  | some v => femit (femit { s with idx := j, value := v } (.value v)) (.idx j)
+  | none => femit { s with idx := j, idxErr := false } (.idx j)       -- `valuedict[j]` raises inside the callback (swallowed)
+  | some v => femit (announceVal cfg v { s with idx := j, idxErr := false }) (.idx j)
 
 def validIdx (cfg : FCfg) (j : Int) : Bool := (cfg.vdict.lookup j).isSome
 
@@ -314,18 +371,28 @@ def writeFloat (cfg : FCfg) (x : Val) (w : WRes Int) (s : FSt) : FSt :=
     if !s1.ok then s1 else
     match cfg.vdict.lookup s1.idx with
     | none => { s1 with ok := false }
-    | some v => femit { s1 with value := v } (.value v)
+    | some v => announceVal cfg v s1
 
-/-- `self.<name> = x` from the driver (`Parameter.__set__` → `announceUpdate`): the cache entry takes any float
-(converted, not range-checked); the callback `trigger_index` compares it with the value of the current index and, when
-it differs, assigns the index of the closest label (whose callback updates the float parameter); the update message of
-the outer `announceUpdate` then carries the value the cache holds at that time -/
-def assignFloat (cfg : FCfg) (x : Val) (s : FSt) : FSt :=
-  let s1 := { s with value := x }
-  let s2 := if cfg.vdict.lookup s1.idx == some x then s1 else
+/-- the callback `trigger_index` on the float parameter (repaired code): a value that is not the value of the current
+index selects the closest label; when that is another index, assigning it updates the float parameter through
+`trigger_setter`; when it is the current index (whose unchanged update might be omitted) the float parameter is corrected
+directly -/
+def triggerIndex (cfg : FCfg) (x : Val) (s : FSt) : FSt :=
+  match cfg.vdict.lookup s.idx with
+  | none => s                                         -- `vdict[idx]` raises (swallowed)
+  | some cur =>
+    if cur == x then s else
     match closest cfg.vdict x with
-    | none => s1
-    | some i => announceIdx cfg i s1
+    | none => s
+    | some i =>
+      if i = s.idx then announceVal cfg cur s else announceIdx cfg i s
+
+/-- `self.<name> = x` from the driver (`Parameter.__set__` → `announceUpdate`): unless omitted, the cache entry takes any
+float (converted, not range-checked), the callback `trigger_index` runs, and the update message of the outer
+`announceUpdate` carries the value the cache holds at that time -/
+def assignFloat (cfg : FCfg) (x : Val) (s : FSt) : FSt :=
+  if omitted cfg (s.value == x) s.valErr then s else
+  let s2 := triggerIndex cfg x { s with value := x, valErr := false }
   femit s2 (.value s2.value)
 
 inductive FOp
@@ -337,29 +404,119 @@ inductive FOp
   | driverAssignFloat (x : Val)
   deriving Repr, Inhabited
 
+/-- an error is announced for the index parameter (`announceUpdate(idx, err=e)`): `readerror` is set, the callback
+`trigger_setter` does not take the extra argument (`TypeError`, swallowed) -/
+def idxError (s : FSt) (e : Option ExcKind) : FSt := { s with ok := false, exc := e, idxErr := true }
+
 def fstep (cfg : FCfg) (s : FSt) : FOp → FSt
   | .writeFloat x w => writeFloat cfg x w s
   | .writeIdx i w => writeIdx cfg i w s
   | .readIdx r =>
     if cfg.hasR then
       match r with
-      | .fail k => { s with ok := false, exc := some k }
-      | .ok j => if validIdx cfg j then { announceIdx cfg j s with ok := true } else { s with ok := false }
+      | .fail k => idxError s (some k)
+      | .ok j => if validIdx cfg j then { announceIdx cfg j s with ok := true } else idxError s none
     else { s with ok := true }
   | .readFloat => { s with ok := true }
-  | .driverAssignIdx j => if validIdx cfg j then { announceIdx cfg j s with ok := true } else { s with ok := false }
+  | .driverAssignIdx j => if validIdx cfg j then { announceIdx cfg j s with ok := true } else idxError s none
   | .driverAssignFloat x => { assignFloat cfg x s with ok := true }
 
 /-- initial state: the index parameter starts with the default of its enum, the float parameter with the
-value of that index (`FloatEnumParam.finish`, repaired code) -/
-def finit (cfg : FCfg) (idx0 : Int) : FSt := { idx := idx0, value := (cfg.vdict.lookup idx0).getD cfg.lo }
+value of that index (`FloatEnumParam.finish`, repaired code); both may carry the `not initialized` error -/
+def finit (cfg : FCfg) (idx0 : Int) (idxErr : Bool := false) (valErr : Bool := false) : FSt :=
+  { idx := idx0, value := (cfg.vdict.lookup idx0).getD cfg.lo, idxErr := idxErr, valErr := valErr }
 
 def fstep1 (cfg : FCfg) (s : FSt) (op : FOp) : FSt := fstep cfg { s with evs := [], exc := none } op
 def frun (cfg : FCfg) (s : FSt) (ops : List FOp) : List FSt := Frappy.Scan.scan (fstep1 cfg) s ops
 def fexec (cfg : FCfg) (s : FSt) (ops : List FOp) : FSt := ops.foldl (fstep1 cfg) s
 
-/-! ## Limit parameters (params.py:555-580, modulebase.py:156-169, 843-869, datatypes.py:1252-1265; repaired code)
+/-! ### the `labels` argument (FloatEnumParam.__init__, extparams.py:226-263)
 
+    nextidx = 0; edict = {}; vdict = {}
+    for elem in labels:
+        if isinstance(elem, str): idx, label = nextidx, elem
+        else:
+            if isinstance(elem[0], str): elem = [nextidx] + list(elem)
+            idx, label, *tail = elem
+            if tail: vdict[idx], = tail
+        edict[label] = idx; nextidx = idx + 1
+    for label, idx in edict.items():
+        if idx not in vdict: vdict[idx] = <the number the label text stands for>   # else ProgrammingError
+    enumtype = EnumType(**edict)                                                   # two names for one index: ProgrammingError
+    datatype = FloatRange(min(vdict.values()), max(vdict.values()))
+-/
+
+/-- one element of `labels`: a bare label or a tuple `([index], label, [value])`; `derived` = the number the label text
+stands for (`'20mV'` → 0.02; `none`: it has not the form `<float><prefix><unit>`) — the text conversion is an oracle -/
+structure LabelSpec where
+  idx : Option Int
+  label : String
+  value : Option Val
+  derived : Option Val
+  deriving Repr, DecidableEq, Inhabited
+
+/-- Python `d[k] = v` on insertion-ordered dicts with these key types -/
+def setI : List (Int × Val) → Int → Val → List (Int × Val)
+  | [], k, v => [(k, v)]
+  | (k', x) :: t, k, v => if k' = k then (k', v) :: t else (k', x) :: setI t k v
+
+def setS : List (String × Int) → String → Int → List (String × Int)
+  | [], k, v => [(k, v)]
+  | (k', x) :: t, k, v => if k' = k then (k', v) :: t else (k', x) :: setS t k v
+
+/-- the first loop: `edict` and the explicitly given values -/
+def collectLabels : List LabelSpec → Int → List (String × Int) → List (Int × Val) → List (String × Int) × List (Int × Val)
+  | [], _, ed, vd => (ed, vd)
+  | e :: es, next, ed, vd =>
+    let i := e.idx.getD next
+    collectLabels es (i + 1) (setS ed e.label i) (match e.value with | some v => setI vd i v | none => vd)
+
+/-- the second loop: values of the indices that have none yet, from the label text -/
+def fillValues (derive : String → Option Val) : List (String × Int) → List (Int × Val) → Option (List (Int × Val))
+  | [], vd => some vd
+  | (lab, i) :: rest, vd =>
+    if (vd.lookup i).isSome then fillValues derive rest vd
+    else match derive lab with
+      | none => none
+      | some v => fillValues derive rest (setI vd i v)
+
+def minVal : List (Int × Val) → Val → Val
+  | [], m => m
+  | c :: cs, m => minVal cs (if c.2 < m then c.2 else m)
+
+def maxVal : List (Int × Val) → Val → Val
+  | [], m => m
+  | c :: cs, m => maxVal cs (if m < c.2 then c.2 else m)
+
+structure ParsedLabels where
+  edict : List (String × Int)      -- label ↦ index (the members of the enum)
+  vdict : List (Int × Val)         -- index ↦ value, in `valuedict` order
+  lo : Val
+  hi : Val
+  deriving Repr, DecidableEq, Inhabited
+
+/-- `FloatEnumParam.__init__` up to the datatypes; `none` = it raises -/
+def parseLabels (specs : List LabelSpec) : Option ParsedLabels :=
+  let (ed, vd0) := collectLabels specs 0 [] []
+  let derive := fun lab => (specs.find? (fun e => e.label == lab)).bind (·.derived)
+  match fillValues derive ed vd0 with
+  | none => none
+  | some vd =>
+    if !(ed.map Prod.snd).Nodup then none          -- EnumType: `b=0 conflicts with a=0`
+    else match vd with
+      | [] => none                                 -- no labels at all: `min()` of an empty sequence
+      | c :: cs => some { edict := ed, vdict := vd, lo := minVal cs c.2, hi := maxVal cs c.2 }
+
+/-! ## Limit parameters (params.py:555-580, modulebase.py:156-200, 885-910, datatypes.py:1252-1265; repaired code)
+
+    HasAccessibles.__init_subclass__ (for every class `cls` of the hierarchy, when it is created):
+        for postfix in ('_limits', '_min', '_max'):
+            if <p><postfix> in accessibles:
+                base = next(b for b in reversed(cls.__mro__) if <p><postfix> in b.__dict__)   # where it is defined first
+                if 'check_<p>' not in base.__dict__:                                          # no own check method there
+                    setattr(base, 'check_<p>', lambda self, value: self.checkLimits(value, <p>))
+        cfuncs = tuple(filter(None, (b.__dict__.get('check_<p>') for b in cls.__mro__)))
+    write wrapper:   validate(value);  for c in cfuncs: if c(self, value): break;  write_<p>(…)
     checkLimits(value, pname):
         if <p>_limits exists:  min_, max_ = <p>_limits;  not min_ <= value <= max_ -> RangeError
         min_ = <p>_min or -inf; max_ = <p>_max or +inf
@@ -367,14 +524,35 @@ def fexec (cfg : FCfg) (s : FSt) (ops : List FOp) : FSt := ops.foldl (fstep1 cfg
     <p>_limits has datatype LimitsType(datatype of p): an inverted pair is a RangeError
 -/
 
+/-- what a programmer-written `check_<p>(value)` does with a value: returns `None` (the next check method is called),
+returns `True` (no further check methods: `if c(self, value): break`), or raises (an oracle, like the `write_<p>` body) -/
+inductive CRes
+  | pass
+  | stop
+  | fail (k : ExcKind)
+  deriving Repr, DecidableEq, Inhabited
+
+/-- one class of the MRO of the module class, as far as the limits of `<p>` are concerned: which limit parameters
+its body declares and whether its body defines `check_<p>` -/
+structure Layer where
+  declMin : Bool := false
+  declMax : Bool := false
+  declLimits : Bool := false
+  ownCheck : Bool := false
+  deriving Repr, DecidableEq, Inhabited
+
 structure LCfg where
   lo : Val                       -- datatype range of the base parameter (and of every limit parameter)
   hi : Val
-  hasMin : Bool
-  hasMax : Bool
-  hasLimits : Bool
+  layers : List Layer            -- the classes of the module class in MRO order (most derived first)
   hasW : Bool                    -- the programmer wrote write_<p>
+  omitUnch : Bool := false       -- `omit_unchanged_within`: 0 (false) or longer than the whole history (true)
   deriving Repr, DecidableEq
+
+/-- `<p>_min in accessibles`: some class of the hierarchy declares it -/
+def LCfg.hasMin (cfg : LCfg) : Bool := cfg.layers.any (·.declMin)
+def LCfg.hasMax (cfg : LCfg) : Bool := cfg.layers.any (·.declMax)
+def LCfg.hasLimits (cfg : LCfg) : Bool := cfg.layers.any (·.declLimits)
 
 inductive LEv
   | value (x : Val)
@@ -388,6 +566,10 @@ structure LSt where
   min : Val
   max : Val
   limits : Val × Val
+  vErr : Bool := false           -- the next update of <p> cannot be omitted: `readerror` is set or it was never announced
+  minErr : Bool := false
+  maxErr : Bool := false
+  limErr : Bool := false
   evs : List LEv := []
   ok : Bool := true
   exc : Option ExcKind := none
@@ -402,11 +584,58 @@ def checkLimits (cfg : LCfg) (s : LSt) (x : Val) : Bool :=
   && (!cfg.hasMin || decide (s.min ≤ x))
   && (!cfg.hasMax || decide (x ≤ s.max))
 
-def lemit (s : LSt) (e : LEv) : LSt := { s with evs := s.evs ++ [e], ok := true }
 def lfail (s : LSt) : LSt := { s with ok := false }
 
+/-- `announceUpdate` of an unchanged value without a pending error while the window is open: nothing stored, no message -/
+def omittedL (cfg : LCfg) (same err : Bool) : Bool := cfg.omitUnch && same && !err
+
+/-- `announceUpdate(<p>, x)` and the same for the limit parameters (no callbacks are registered on them) -/
+def setValue (cfg : LCfg) (x : Val) (s : LSt) : LSt :=
+  if omittedL cfg (s.value == x) s.vErr then { s with ok := true }
+  else { s with value := x, vErr := false, evs := s.evs ++ [.value x], ok := true }
+
+def setMin (cfg : LCfg) (x : Val) (s : LSt) : LSt :=
+  if omittedL cfg (s.min == x) s.minErr then { s with ok := true }
+  else { s with min := x, minErr := false, evs := s.evs ++ [.min x], ok := true }
+
+def setMax (cfg : LCfg) (x : Val) (s : LSt) : LSt :=
+  if omittedL cfg (s.max == x) s.maxErr then { s with ok := true }
+  else { s with max := x, maxErr := false, evs := s.evs ++ [.max x], ok := true }
+
+def setLimits (cfg : LCfg) (a b : Val) (s : LSt) : LSt :=
+  if omittedL cfg (s.limits == (a, b)) s.limErr then { s with ok := true }
+  else { s with limits := (a, b), limErr := false, evs := s.evs ++ [.limits a b], ok := true }
+
+/-- class `l`, followed in the MRO by the classes `rest`, is the class where one of the limit parameters is defined
+first (`next(b for b in reversed(cls.__mro__) if limname in b.__dict__)`) -/
+def isFirstDef (l : Layer) (rest : List Layer) : Bool :=
+  (l.declMin && !rest.any (·.declMin)) || (l.declMax && !rest.any (·.declMax)) ||
+  (l.declLimits && !rest.any (·.declLimits))
+
+/-- outcome of the loop over the check methods -/
+structure ChkRes where
+  ok : Bool                      -- no check method raised
+  exc : Option ExcKind := none   -- the exception of a programmer's check method
+  stopAt : Option Nat := none    -- MRO position of the programmer's check method that returned `True`
+  deriving Repr, DecidableEq, Inhabited
+
+/-- `for c in cfuncs: if c(self, value): break` with `cfuncs` = the `check_<p>` entries of the class dicts in MRO order:
+the programmer's method where the class body defines one (oracle `c`, by MRO position), else the automatic
+`checkLimits` call where the class defines a limit parameter first, else nothing.  `lim` = `checkLimits` does not raise. -/
+def runChecks (lim : Bool) (c : List CRes) : List Layer → Nat → ChkRes
+  | [], _ => { ok := true }
+  | l :: rest, i =>
+    if l.ownCheck then
+      match c.getD i .pass with
+      | .pass => runChecks lim c rest (i + 1)
+      | .stop => { ok := true, stopAt := some i }
+      | .fail k => { ok := false, exc := some k }
+    else if isFirstDef l rest then
+      if lim then runChecks lim c rest (i + 1) else { ok := false }
+    else runChecks lim c rest (i + 1)
+
 inductive LOp
-  | write (x : Val) (w : WRes Val)       -- change <p> / write_<p>(x)
+  | write (x : Val) (c : List CRes) (w : WRes Val)       -- change <p> / write_<p>(x); `c`: what the check methods do
   | writeMin (x : Val)
   | writeMax (x : Val)
   | writeLimits (a b : Val)
@@ -420,34 +649,37 @@ inductive LOp
 def validLimits (cfg : LCfg) (a b : Val) : Bool := inRange cfg a && inRange cfg b && decide (a ≤ b)
 
 def lstep (cfg : LCfg) (s : LSt) : LOp → LSt
-  | .write x w =>
+  | .write x c w =>
     if !inRange cfg x then lfail s
-    else if !checkLimits cfg s x then lfail s
+    else if !(runChecks (checkLimits cfg s x) c cfg.layers 0).ok then
+      { s with ok := false, exc := (runChecks (checkLimits cfg s x) c cfg.layers 0).exc }
     else if cfg.hasW then
       match w with
       | .fail k => { s with ok := false, exc := some k }
-      | .retNone => lemit { s with value := x } (.value x)
-      | .ret y => if inRange cfg y then lemit { s with value := y } (.value y) else lfail s
-    else lemit { s with value := x } (.value x)
-  | .writeMin x => if cfg.hasMin && inRange cfg x then lemit { s with min := x } (.min x) else lfail s
-  | .writeMax x => if cfg.hasMax && inRange cfg x then lemit { s with max := x } (.max x) else lfail s
+      | .retNone => setValue cfg x s
+      | .ret y => if inRange cfg y then setValue cfg y s else lfail s
+    else setValue cfg x s
+  | .writeMin x => if cfg.hasMin && inRange cfg x then setMin cfg x s else lfail s
+  | .writeMax x => if cfg.hasMax && inRange cfg x then setMax cfg x s else lfail s
   | .writeLimits a b =>
-    if cfg.hasLimits && validLimits cfg a b then lemit { s with limits := (a, b) } (.limits a b) else lfail s
+    if cfg.hasLimits && validLimits cfg a b then setLimits cfg a b s else lfail s
   -- driver-side assignments: `announceUpdate` converts (`datatype(value)`), it does not check ranges or the order
-  | .driverAssign x => lemit { s with value := x } (.value x)
+  | .driverAssign x => setValue cfg x s
   | .driverAssignMin x =>
-    if cfg.hasMin then lemit { s with min := x } (.min x) else lfail s
+    if cfg.hasMin then setMin cfg x s else lfail s
   | .driverAssignMax x =>
-    if cfg.hasMax then lemit { s with max := x } (.max x) else lfail s
+    if cfg.hasMax then setMax cfg x s else lfail s
   | .driverAssignLimits a b =>
-    if cfg.hasLimits then lemit { s with limits := (a, b) } (.limits a b) else lfail s
+    if cfg.hasLimits then setLimits cfg a b s else lfail s
 
 def lstep1 (cfg : LCfg) (s : LSt) (op : LOp) : LSt := lstep cfg { s with evs := [], exc := none } op
 def lrun (cfg : LCfg) (s : LSt) (ops : List LOp) : List LSt := Frappy.Scan.scan (lstep1 cfg) s ops
 def lexec (cfg : LCfg) (s : LSt) (ops : List LOp) : LSt := ops.foldl (lstep1 cfg) s
 
 /-- defaults of the limit parameters: the range of the datatype (`Limit.set_datatype`) -/
-def linit (cfg : LCfg) (v : Val) : LSt :=
-  { value := v, min := cfg.lo, max := cfg.hi, limits := (cfg.lo, cfg.hi) }
+def linit (cfg : LCfg) (v : Val) (vErr : Bool := false) (minErr : Bool := false) (maxErr : Bool := false)
+    (limErr : Bool := false) : LSt :=
+  { value := v, min := cfg.lo, max := cfg.hi, limits := (cfg.lo, cfg.hi), vErr := vErr, minErr := minErr, maxErr := maxErr,
+    limErr := limErr }
 
 end Frappy.ExtParams
